@@ -3,6 +3,7 @@ import PPLV.Checked.Bounded
 import PPLV.Checked.ModelAsWritten
 import PPLV.Checked.FloatJudge
 import PPLV.Checked.FloatModel
+import PPLV.Checked.ConvMp
 /-!
 `pplv_c11`: reads the journal of `harness/c11_checked.cc` on stdin (grammar there) and, for every
 executed case, (1) runs the code-shaped model `IntOp.run`, (2) evaluates — independently of the
@@ -185,6 +186,57 @@ def checkConv (t : IntTy) (π : Policy) (tn pn opn : String) (dirN : Nat) (a : O
       let desc := s!"T={tn} P={pn} op={kind} dir={dirN} to0={a.to0} x={a.x} y={a.y} e={a.e} real={realStored},{realCode} model={ms} exact={showExact exact}"
       if obs.isEmpty then desc else desc ++ " tags=" ++ ",".intercalate tags
     { skipped := false, obligations := obs, nontrivial := realCode != 1, line := line }
+
+/-- `assign_r(mpz_class, mpq_class, dir)` (journal family `zFromQ`; `dirN` carries `ROUND_STRICT_RELATION`):
+the code's relation and the direction are judged on the real output; the model `Mp.assignMpzMpq` is compared -/
+def checkZFromQ (dirN : Nat) (n d : Int) (realStored : Int) (realCode : Nat) : CaseOut :=
+  match Dir.ofCode dirN with
+  | none => { skipped := true, obligations := [], nontrivial := false, line := fun _ => "" }
+  | some dir =>
+    -- ROUND_NOT_NEEDED promises an integral operand
+    if dir == .notNeeded && d != 1 then { skipped := true, obligations := [], nontrivial := false, line := fun _ => "" }
+    else
+    let strict := dirN / 8 % 2 == 1
+    let exact : Exact := .frac n d
+    let realRes := Result.ofNat realCode
+    let st : Ext Int := .fin realStored
+    let (ms, mr) := Mp.assignMpzMpq n d dir strict
+    let obs : List String :=
+      (if K4.holdsB realRes st exact then [] else ["holds"]) ++
+      (if K4.directedB dir realRes st exact then [] else ["directed"]) ++
+      (if ms == realStored && mr.toNat == realCode then [] else ["model"])
+    let line : Unit → String := fun _ =>
+      s!"T=mpz P=EN op=zFromQ dir={dirN} to0=0 x={n} y={d} e=0 real={realStored},{realCode} model={ms},{mr.toNat} exact={showExact exact}"
+    { skipped := false, obligations := obs, nontrivial := realCode != 1, line := line }
+
+/-- `gcdext_assign_r(to, s, t, x, y)` judged on the real output (journal family `gx`): a `V_EQ` result
+claims `to = gcd(x, y) ≥ 0` and `s·x + t·y = to` over the integers; any other code is judged by the usual
+clauses against the exact result `gcd(x, y)`.  Operands that are special encodings are skipped. -/
+def checkGcdext (t : IntTy) (π : Policy) (tn pn : String) (dirN : Nat) (x y to0 to s tt : Int) (code : Nat) : CaseOut :=
+  match Dir.ofCode dirN, t.denote π x, t.denote π y with
+  | some dir, .fin _, .fin _ =>
+    let g : Int := Int.ofNat (Int.gcd x y)
+    let exact := Exact.ofInt g
+    let r := Result.ofNat code
+    let st := t.denote π to
+    let obs : List String :=
+      if code == 1 then
+        (if to == g then [] else ["holds"]) ++ (if s * x + tt * y == to then [] else ["bezout"])
+      else
+        (if K4.holdsB r st exact then [] else ["holds"]) ++
+        (if K4.directedB dir r st exact then [] else ["directed"]) ++
+        (if K4.overflowHoldsB r (t.emin π) (t.emax π) exact then [] else ["overflow"]) ++
+        (if storedOK t π to r then [] else ["stored"])
+    let tags : List String :=
+      (if t.signed then ["signed"] else ["unsigned"]) ++
+      (if x == 0 && y == 0 then ["both_operands_zero"] else []) ++
+      (if t.signed && (-x > t.emax π || -y > t.emax π) then ["abs_of_operand_overflows"] else []) ++
+      (if !t.signed && code == 1 && !(x == 0 && y == 0) then ["unsigned_bezout_coefficient_wraps"] else [])
+    let line : Unit → String := fun _ =>
+      let desc := s!"T={tn} P={pn} op=gcdext dir={dirN} to0={to0} x={x} y={y} e=0 real={to};s={s};t={tt},{code} model=- exact={showExact exact}"
+      if obs.isEmpty then desc else desc ++ " tags=" ++ ",".intercalate tags
+    { skipped := false, obligations := obs, nontrivial := code != 1 || g != 1, line := line }
+  | _, _, _ => { skipped := true, obligations := [], nontrivial := false, line := fun _ => "" }
 
 def hexVal (b : UInt8) : Nat :=
   if b ≥ 48 && b ≤ 57 then (b - 48).toNat else if b ≥ 97 && b ≤ 102 then (b - 87).toNat else 0
@@ -418,6 +470,25 @@ def assignZModelBad (fmt : FloatFmt) (dirN : Nat) (x stored : QV) (code : Nat) :
     !(same && mr.toNat == code)
   | _, _ => false
 
+/-- the code-shaped models of `assign_mpz_float` / `assign_mpz_long_double` (→ `assign_mpz_mpq`) and
+`assign_mpq_float` against the library (obligation `model`; targets are `Extended_Number_Policy`) -/
+def toZQModelBad (opn fn : String) (dirN : Nat) (x stored : QV) (code : Nat) : Bool :=
+  match Dir.ofCode dirN with
+  | some dir =>
+    let strict := dirN / 8 % 2 == 1
+    let (ms, mr) : QV × Result :=
+      if opn == "toQ" then Mp.assignMpqFloat Policy.extended .nan x
+      else match x with
+        | .fin n d =>
+          if fn == "f80" then
+            let g : Int := Int.ofNat (Int.gcd n d)
+            let o := Mp.assignMpzMpq (n / g) (d / g) dir strict
+            (.fin o.1 1, o.2)
+          else Mp.assignMpzFloat Policy.extended .nan .up x dir
+        | _ => Mp.assignMpzFloat Policy.extended .nan .up x dir
+    !(Mp.sameQV ms stored && mr.toNat == code)
+  | none => false
+
 def handleFloat (id fn pn opn d to0 x y e st code : String) : M Unit := do
   let s ← get
   let key := s!"{fn} {pn} {opn}"
@@ -427,6 +498,8 @@ def handleFloat (id fn pn opn d to0 x y e st code : String) : M Unit := do
     let v0 := judgeFloat fmt π op (tokNat d) vt vx vy (tokNat e) (parseQV st) (tokNat code)
     let v : FloatVerdict :=
       if opn == "assignZ" && !v0.skipped && assignZModelBad fmt (tokNat d) vx (parseQV st) (tokNat code)
+      then { v0 with obligations := v0.obligations ++ ["model"] }
+      else if (opn == "toZ" || opn == "toQ") && !v0.skipped && toZQModelBad opn fn (tokNat d) vx (parseQV st) (tokNat code)
       then { v0 with obligations := v0.obligations ++ ["model"] } else v0
     if v.skipped then
       bump key fun c => { c with skipped := c.skipped + 1 }
@@ -498,6 +571,10 @@ partial def loop (h : IO.FS.Stream) : M Unit := do
   | ["end", id] => IO.println s!"done {id}"
   | ["c", id, tn, pn, opn, d, to0, x, y, e, st, code] =>
     let s ← get
+    if opn == "zFromQ" then
+      let o := checkZFromQ (tokNat d) (tokInt x) (tokInt y) (tokInt st) (tokNat code)
+      record s!"{tn} {pn} zFromQ" id o true
+    else
     if opn.startsWith "assignZ" || opn.startsWith "assignQ" || opn.startsWith "assignD" || opn.startsWith "assignF" then
       match s.cfg.ty tn, s.cfg.pol pn with
       | some t, some π =>
@@ -513,6 +590,13 @@ partial def loop (h : IO.FS.Stream) : M Unit := do
       let o := checkCase s.cfg.fixes t π tn pn opn op (tokNat d) a (tokInt st) (tokNat code)
       record s!"{tn} {pn} {opn}" id o true
     | _, _, _ => IO.println s!"MISMATCH {id} parse {line.trimAscii.toString}"
+  | ["gx", id, tn, pn, d, x, y, to0, _s0, _t0, to, sv, tv, code] =>
+    let s ← get
+    match s.cfg.ty tn, s.cfg.pol pn with
+    | some t, some π =>
+      let o := checkGcdext t π tn pn (tokNat d) (tokInt x) (tokInt y) (tokInt to0) (tokInt to) (tokInt sv) (tokInt tv) (tokNat code)
+      record s!"{tn} {pn} gcdext" id o true
+    | _, _ => IO.println s!"MISMATCH {id} parse {line.trimAscii.toString}"
   | ["q", id, tn, pn, what, x, y, rel] =>
     let s ← get
     match s.cfg.ty tn, s.cfg.pol pn with
